@@ -352,6 +352,15 @@ def execN (d : DS) (line : String) (hints : List Nat) : List (DS × String) :=
 
 def modelStep (d : DS) (line : String) : DS × String := exec d line []
 
+/-- observation equality where a token `key=?` of the implementation (a white-box probe that could
+not be resolved on this source tree) matches whatever the model says for `key` -/
+def obsMatch (want obs : String) : Bool :=
+  want == obs ||
+  (let a := want.splitOn " "
+   let b := obs.splitOn " "
+   a.length == b.length &&
+   (a.zip b).all fun (x, y) => x == y || (y.endsWith "=?" && x.startsWith ((y.dropEnd 1).toString)))
+
 /-- acceptance: the set of model states compatible with everything observed so far -/
 def acceptStep (ds : List DS) (line : String) : List DS × String :=
   match line.splitOn "\t" with
@@ -359,7 +368,7 @@ def acceptStep (ds : List DS) (line : String) : List DS × String :=
     let hints := if (words op).head? == some "do" then ((kvNat (words obs) "pop").map ([·])).getD [] else cbIdsOf obs
     if (words op).head? == some "reset" then ([(exec {} op []).1], if obs == "ok" then "ok" else "REJECT want=ok") else
     let outs := ds.flatMap fun d => execN d op hints
-    let good := outs.filter fun o => o.2 == obs
+    let good := outs.filter fun o => obsMatch o.2 obs
     match good, outs with
     | _ :: _, _ => ((good.map (·.1)).take 64, "ok")
     | [], o :: _ => ([o.1], "REJECT want=" ++ o.2)
@@ -389,6 +398,8 @@ structure SS where
   lenient : Bool := false  -- the observation is cut short (runaway): ids may be unknown
   svc : Bool := false      -- service-level case
   own : Nat := 0           -- the check timer the service believes it owns (0: none)
+  emptySince : Option Nat := none  -- the request table has been observed empty since (end of an op)
+  idleTicks : Nat := 0     -- check-timer ticks since then
   deriving Inhabited
 
 def SS.find (s : SS) (id : Nat) : Option TI := s.tis.find? (·.id == id)
@@ -434,28 +445,62 @@ def specTok (s : SS) (tok : String) : SS :=
     | _, _, _ => s.flag "C14/bad-observation" tok
   | _ => s
 
-/-- service level, before the callback log is read: a timer the service newly owns was armed now -/
+def probe (ow : List String) (key : String) : Option Nat := (kv ow key).bind String.toNat?
+
+def liveOf (ow : List String) : Option (List Nat) :=
+  match kv ow "live" with
+  | some "?" => none
+  | some v => some ((v.splitOn ",").filterMap String.toNat?)
+  | none => none
+
+/-- service level, before the callback log is read: a timer the service newly owns (or, when that
+probe is unresolved, a timer newly held by the manager) was armed now, with the 1 s period -/
 def svcPre (s : SS) (ow : List String) : SS :=
-  let own' := (kvNat ow "own").getD 0
-  if own' != 0 && own' != s.own && (s.find own').isNone then s.register own' s.now 1000 true [] else s
+  if kv ow "ev" == some "?" then { s with lenient := true } else   -- no callback log on this tree
+  let ids := (match probe ow "own" with | some o => if o != 0 then [o] else [] | none => []) ++ (liveOf ow).getD []
+  let s := ids.foldl (fun s id => if (s.find id).isNone then s.register id s.now 1000 true [] else s) s
+  { s with lenient := s.lenient || ((probe ow "own").isNone && (liveOf ow).isNone) }
+
+/-- ticks of the check timer while the request table stays empty: the first one frees the timer -/
+def svcIdle (s : SS) (toks : List String) (ow : List String) : SS :=
+  let n := (toks.filter (·.startsWith "cb:")).length
+  let s := if s.emptySince.isSome then { s with idleTicks := s.idleTicks + n } else s
+  let s := if s.idleTicks ≥ 3 then
+      s.flag "C14/cancel-had-no-effect" s!"the check timer fired {s.idleTicks} times although the request table has been empty since {s.emptySince.getD 0}: the service's cancel of its timer has no effect"
+    else s
+  match kvNat ow "pend" with
+  | some 0 => if s.emptySince.isNone then { s with emptySince := some ((kvNat ow "now").getD s.now), idleTicks := 0 } else s
+  | some _ => { s with emptySince := none, idleTicks := 0 }
+  | none => s
 
 /-- service level, after the log: the service gave up (cancelled) the timer it owned; what its
-timer manager still holds must be exactly the timer the service owns -/
+timer manager still holds must be exactly the timer the service owns.  Clauses whose probe is
+unresolved (`?`) are skipped. -/
 def svcPost (s : SS) (ow : List String) : SS :=
-  let own' := (kvNat ow "own").getD 0
-  let live := (((kv ow "live").getD "").splitOn ",").filterMap String.toNat?
-  let s := if s.own != 0 && own' != s.own then s.modify s.own fun ti => { ti with cancelled := true } else s
-  let s := { s with own := own' }
-  let stale := live.filter fun id => id != own'
-  let s := match stale.find? (fun id => (s.find id).any (·.cancelled)) with
-    | some id => s.flag "C14/cancel-had-no-effect" s!"the service cancelled its check timer {id} (from inside that timer's callback) but the timer manager still holds it"
+  let s := match probe ow "own" with
+    | some own' =>
+      let s := if s.own != 0 && own' != s.own then s.modify s.own fun ti => { ti with cancelled := true } else s
+      { s with own := own' }
     | none => s
-  let s := if live.length > 1 || (!stale.isEmpty) then
-      s.flag "C14/timer-leaked" s!"timer manager holds timers {live} while the service owns {own'}: at most the one check timer may be alive"
+  -- what the manager no longer holds has been cancelled (or was a finished one-shot)
+  let s := match liveOf ow with
+    | some live => { s with tis := s.tis.map fun ti => if live.contains ti.id then ti else { ti with cancelled := true } }
+    | none => s
+  match liveOf ow, probe ow "own" with
+  | some live, some own' =>
+    let stale := live.filter fun id => id != own'
+    let s := match stale.find? (fun id => (s.find id).any (·.cancelled)) with
+      | some id => s.flag "C14/cancel-had-no-effect" s!"the service cancelled its check timer {id} (from inside that timer's callback) but the timer manager still holds it"
+      | none => s
+    let s := if live.length > 1 || (!stale.isEmpty) then
+        s.flag "C14/timer-leaked" s!"timer manager holds timers {live} while the service owns {own'}: at most the one check timer may be alive"
+      else s
+    if own' != 0 && !live.contains own' then
+      s.flag "C14/timer-lost" s!"the service owns check timer {own'} but the timer manager does not hold it"
     else s
-  if own' != 0 && !live.contains own' then
-    s.flag "C14/timer-lost" s!"the service owns check timer {own'} but the timer manager does not hold it"
-  else s
+  | some live, none =>
+    if live.length > 1 then s.flag "C14/timer-leaked" s!"timer manager holds timers {live}: at most the one check timer may be alive" else s
+  | none, _ => s
 
 def evToks (obs : String) (key : String) : List String :=
   match kv (words obs) key with
@@ -511,7 +556,7 @@ def specStep (s : SS) (line : String) : SS × String :=
       let s := if kv ow "loop" == some "0" then s.flag "C14/callback-off-owner-goroutine" "a callback ran on a goroutine other than the run service's loop" else s
       let s := if s.svc then svcPre s ow else s
       let s := (toks ++ stray).foldl specTok s
-      let s := if s.svc && (kv ow "own").isSome then svcPost s ow else s
+      let s := if s.svc && (kv ow "own").isSome then svcIdle (svcPost s ow) toks ow else s
       let s := match kvNat ow "now" with
         | some t => { s with now := t }
         | none => s
